@@ -22,7 +22,8 @@ ALL_VALUES = [False, True, 'loc', 'Name', 'Call', 'set:Name,Constant', 'set:If,F
 _STMT_CODE = ['pass', 'nx = ny', 'nf(nx)', 'if nx:\n    ny', 'for nx in ny:\n    nz\n    nw', 'def ng(na):\n    return na',
               'nx = [ny, nz]', 'return nx + ny', 'while nx:\n    ny\nelse:\n    nz', 'with nx:\n    ny']
 _EXPR_CODE = ['nx', 'nf(ny, nz)', '7', 'nx + ny * nz', '[nx, ny]', 'nx.ny', '(nx, ny)', 'nx if ny else nz', 'not nx',
-              'nx and ny', 'nf(ng(nh))', '{nx: ny}', 'lambda: nx']
+              'nx and ny', 'nf(ng(nh))', '{nx: ny}', 'lambda: nx', '[nq for nq in nr]', '(nq for nq in nr if ns)',
+              'lambda nq=nx: nq + ny', '{nq: nr for nq in ns for nt in nq}', '[nq for nq in [nr for nr in ns]]']
 
 
 def _all_arg(v):
@@ -81,7 +82,7 @@ class WalkRun:
                 scope=False, order_mode=order_mode, p_act=rng.choice([0.1, 0.25, 0.5]),
                 start=rng.random() < 0.3, nested=rng.random() < 0.7,
             )
-            if cfg['on'] == 'enter' and not order_mode and rng.random() < 0.15:
+            if cfg['on'] == 'enter' and rng.random() < (0.3 if order_mode else 0.2):
                 cfg['scope'] = True
             cfg['acts'] = ORDER_ACTIONS if order_mode else ([a for a in ACTIONS if rng.random() < 0.7] or ['replace'])
             if 'none' not in cfg['acts']:
@@ -173,10 +174,11 @@ class WalkRun:
                         self.fail('walk_order_after_action', f'yield {y}: expected {want.__class__.__name__} at {self.where(want)}, got {a.__class__.__name__} at {self.where(a)}', y)
                         break
                     self.stats['order_checks'] += 1
+                if sent_true_for is not None and not entering and g is sent_true_for[0]:
+                    sent_true_for = None  # the node is being left: it had nothing to walk when send(True) was issued
                 if sent_true_for is not None and entering:
-                    st, sent_true_for = sent_true_for, None
-                    kids = [c for c in ast.iter_child_nodes(st.a)] if st.a is not None else []
-                    if kids and cfg['all'] is True and cfg['kind'] == 'walk' and not self.is_descendant(g, st):
+                    (st, kids), sent_true_for = sent_true_for, None
+                    if kids and st.a is not None and cfg['all'] is True and cfg['kind'] == 'walk' and not self.is_descendant(g, st):
                         self.fail('send_true_not_honoured', f'yield {y}: {g!r} is not under {st!r}', y)
                         break
                 # ---- scheduler
@@ -203,7 +205,7 @@ class WalkRun:
                 if act['a'] == 'send_false' and outcome == 'ok' and entering:
                     skip_roots.append((g, g.a))
                 if act['a'] == 'send_true' and outcome == 'ok' and entering:
-                    sent_true_for = g
+                    sent_true_for = (g, bool(list(ast.iter_child_nodes(g.a))) if g.a is not None else False)  # children at send time
                 if act['a'] in ('replace', 'remove') and outcome == 'ok':
                     skip_roots = [(sf, sa) for sf, sa in skip_roots if sf.a is sa]
                 # ---- order oracle (order mode only: actions restricted to current node / send(False))
